@@ -16,7 +16,11 @@ outside the shape below raises ExtractFail = broken tie):
     }
 
   * `escapeChar`, `keepCond` (the atoms of KEEP, in source order), `doubled`, `separator` (wasmImportNameSeparator), and the fact
-    that `wasmCWriteFileImportName` / the String variants write esc(module), the separator, esc(name) in this order.
+    that `wasmCWriteFileImportName` / the String variants write <module part>, the separator, esc(name) in this order.
+  * the MODULE part (`moduleLeadEscape`): whether ALL import sites send the module name through the wrappers
+    `wasmCWrite{File,String}EscapedModule` (since /repo ed458af) and what those do — `if (<conditions on module[0]>) { write escapeChar,
+    module[0] as %02X; module++; } <escape the rest>`; on a tree without the wrappers (or where no site uses them) the list is empty
+    = the old rule esc(module).  Sites that disagree with each other, wrappers that disagree, any other shape: ExtractFail.
 Model/Mangle.lean interprets these; Props/C04Mangle.lean proves the mangling injective (and that Model/Render.lean's hand-written
 `escapeName`, which emit-tokens ties to the real output, is this rule).
 """
@@ -99,34 +103,81 @@ def check_hex_appender(repo):
         raise ExtractFail("w2c2/stringbuilder.c:%d" % line, "stringBuilderAppendCharHex is no longer `%02X` of (unsigned char) value")
 
 
-def check_import_name(src):
-    """esc(module), separator, esc(name) — in the FILE writer and in every String use"""
+LEAD_ATOMS = {"isdigit((unsignedchar)module[0])": "digit"}
+
+
+def module_wrapper(src, fname, kind, escape_char):
+    """`wasmCWrite{File,String}EscapedModule` if it exists: [atoms] — disjunction of the conditions on module[0] under which that first
+    byte is written as escapeChar + %02X before the REST of the name goes through the escaping routine (as a fresh name); None when
+    the function does not exist (the module part is written by the escaping routine directly)"""
+    if not re.search(r"^%s\(" % re.escape(fname), src, re.M):
+        return None
+    body, line = function_body(src, fname, C)
+    where = "%s:%d (%s)" % (C, line, fname)
+    t = nows(body)
+    if kind == "file":
+        rx = (r"if\((.*?)\)\{fprintf\(file,\"(.)%02X\",\(unsignedchar\)module\[0\]\);module\+\+;\}wasmCWriteFileEscaped\(file,module\);")
+    else:
+        rx = (r"if\((.*?)\)\{MUST\(stringBuilderAppendChar\(builder,'(.)'\)\)MUST\(stringBuilderAppendCharHex\(builder,module\[0\]\)\)module\+\+;\}"
+              r"returnwasmCWriteStringEscaped\(builder,module\);")
+    m = re.fullmatch(rx, t)
+    if not m:
+        raise ExtractFail(where, "the module-name wrapper has an unexpected shape")
+    if ord(m.group(2)) != escape_char:
+        raise ExtractFail(where, "the wrapper escapes with %r, the escaping routine with %r" % (m.group(2), chr(escape_char)))
+    atoms = []
+    for part in m.group(1).split("||"):
+        if part not in LEAD_ATOMS:
+            raise ExtractFail(where, "unknown condition `%s` on the first byte of the module name" % part)
+        atoms.append(LEAD_ATOMS[part])
+    return atoms
+
+
+def check_import_name(src, escape_char):
+    """(separator, lead atoms): an import's identifier is <module part>, separator, esc(name) — in the FILE writer and in every
+    String-builder use; the module part is esc(module) or, when every site goes through the wrappers, what the wrappers write"""
     m = re.search(r'static\s+const\s+char\*\s*wasmImportNameSeparator\s*=\s*("[^"]*")\s*;', src)
     if not m:
         raise ExtractFail(C, "wasmImportNameSeparator not found")
     sep = c_string(m.group(1), C)
+    wf = module_wrapper(src, "wasmCWriteFileEscapedModule", "file", escape_char)
+    ws = module_wrapper(src, "wasmCWriteStringEscapedModule", "string", escape_char)
     body, line = function_body(src, "wasmCWriteFileImportName", C)
-    if nows(body) != "wasmCWriteFileEscaped(file,module);fputs(wasmImportNameSeparator,file);wasmCWriteFileEscaped(file,name);":
-        raise ExtractFail("%s:%d" % (C, line), "wasmCWriteFileImportName no longer writes esc(module), separator, esc(name)")
+    mm = re.fullmatch(r"(wasmCWriteFileEscaped|wasmCWriteFileEscapedModule)\(file,module\);fputs\(wasmImportNameSeparator,file\);wasmCWriteFileEscaped\(file,name\);", nows(body))
+    if not mm:
+        raise ExtractFail("%s:%d" % (C, line), "wasmCWriteFileImportName no longer writes <module part>, separator, esc(name)")
+    file_wrapped = mm.group(1).endswith("Module")
+    if file_wrapped and wf is None:
+        raise ExtractFail("%s:%d" % (C, line), "wasmCWriteFileEscapedModule is called but not defined")
     flat = nows(src)
-    uses = re.findall(r"MUST\(wasmCWriteStringEscaped\(builder,(\w+)\.module\)\)(.*?)MUST\(wasmCWriteStringEscaped\(builder,(\w+)\.name\)\)", flat)
+    uses = re.findall(r"MUST\((wasmCWriteStringEscaped|wasmCWriteStringEscapedModule)\(builder,(\w+)\.module\)\)(.*?)MUST\(wasmCWriteStringEscaped\(builder,(\w+)\.name\)\)", flat)
     if not uses:
         raise ExtractFail(C, "no String-builder import name found")
-    for a, mid, b in uses:
+    for fn, a, mid, b in uses:
         if a != b or mid != "MUST(stringBuilderAppend(builder,wasmImportNameSeparator))":
-            raise ExtractFail(C, "a String-builder import name is not esc(module), separator, esc(name): %s…%s" % (a, b))
-    n_mod = len(re.findall(r"wasmCWriteStringEscaped\(builder,\w+\.module\)", flat))
+            raise ExtractFail(C, "a String-builder import name is not <module part>, separator, esc(name): %s…%s" % (a, b))
+    wrapped = set(fn.endswith("Module") for fn, a, mid, b in uses) | {file_wrapped}
+    if len(wrapped) != 1:
+        raise ExtractFail(C, "the module part of an import name goes through the wrapper at some sites and not at others")
+    wrapped = wrapped.pop()
+    if wrapped and (ws is None or wf != ws):
+        raise ExtractFail(C, "the FILE and String-builder module-name wrappers differ: %r vs %r" % (wf, ws))
+    n_mod = len(re.findall(r"wasmCWriteStringEscaped(?:Module)?\(builder,\w+\.module\)", flat))
+    n_name = len(re.findall(r"wasmCWriteStringEscaped\(builder,\w+\.name\)", flat))
     n_all = len(re.findall(r"wasmCWriteStringEscaped\(builder,", flat))
-    if n_mod != len(uses) or n_all != 2 * len(uses) + 0:
-        # every String-builder use of the escaping routine is part of such a triple (definition excluded: it has `StringBuilder*builder,`)
-        raise ExtractFail(C, "wasmCWriteStringEscaped is used outside the module/separator/name triple (%d uses, %d triples)" % (n_all, len(uses)))
+    n_inner = 1 if ws is not None else 0           # the wrapper's own call `wasmCWriteStringEscaped(builder, module)`
+    if n_mod != len(uses) or n_name != len(uses) or n_all != (0 if wrapped else len(uses)) + len(uses) + n_inner:
+        raise ExtractFail(C, "wasmCWriteStringEscaped is used outside the module/separator/name triples (%d uses, %d triples)" % (n_all, len(uses)))
     eb, eline = function_body(src, "wasmCWriteExportName", C)
     if nows(eb) != 'fprintf(file,"%s_",moduleName);wasmCWriteFileEscaped(file,name);':
         raise ExtractFail("%s:%d" % (C, eline), "wasmCWriteExportName is no longer `<module>_` followed by esc(name)")
     n_file = len(re.findall(r"wasmCWriteFileEscaped\(file,", flat))
-    if n_file != 3:
-        raise ExtractFail(C, "wasmCWriteFileEscaped is used outside wasmCWriteFileImportName / wasmCWriteExportName (%d uses)" % n_file)
-    return sep
+    if n_file != 3 + (1 if (wf is not None and not file_wrapped) else 0):
+        raise ExtractFail(C, "wasmCWriteFileEscaped is used outside wasmCWriteFileImportName / the module wrapper / wasmCWriteExportName (%d uses)" % n_file)
+    n_wf = len(re.findall(r"wasmCWriteFileEscapedModule\(file,", flat))
+    if n_wf != (1 if file_wrapped else 0):
+        raise ExtractFail(C, "wasmCWriteFileEscapedModule is used outside wasmCWriteFileImportName (%d uses)" % n_wf)
+    return sep, (wf if wrapped else [])
 
 
 def lean_nats(xs):
@@ -140,7 +191,7 @@ def generate(repo):
     if a != b:
         raise ExtractFail(C, "the two copies of the escaping routine differ: FILE %r vs StringBuilder %r" % (a, b))
     check_hex_appender(repo)
-    sep = check_import_name(src)
+    sep, lead = check_import_name(src, a["escapeChar"])
     out = ["/- GENERATED by tools/extract/gen_mangle.py from w2c2/c.c — do not edit. -/",
            "namespace W2c2Verif.Gen.Mangle",
            "",
@@ -158,8 +209,17 @@ def generate(repo):
            "/-- `else if (<conjunction of these>) <write c>`; every remaining byte is written as escapeChar followed by `%02X` -/",
            "def keepCond : List KeepAtom := [%s]" % ", ".join("." + k for k in a["keep"]),
            "",
-           "/-- `wasmImportNameSeparator`: an import's identifier is esc(module), this, esc(field) -/",
+           "/-- `wasmImportNameSeparator`: an import's identifier is <module part>, this, esc(field) -/",
            "def separator : List Nat := %s" % lean_nats(sep),
+           "",
+           "/-- conditions on the FIRST byte of the module name -/",
+           "inductive LeadAtom | digit",
+           "  deriving DecidableEq, Repr, Inhabited",
+           "",
+           "/-- the module part: when one of these holds for the first byte (`wasmCWrite{File,String}EscapedModule`), that byte is written as",
+           "    escapeChar followed by `%02X` and the REST goes through the escaping routine as a name of its own; otherwise (and always when",
+           "    the list is empty: no wrapper at the import sites) the whole module name goes through the escaping routine -/",
+           "def moduleLeadEscape : List LeadAtom := [%s]" % ", ".join("." + x for x in lead),
            "",
            "end W2c2Verif.Gen.Mangle"]
     return "\n".join(out) + "\n"
